@@ -172,6 +172,10 @@ type World struct {
 	S   *Tape // schedule / fault tape
 	Cfg Config
 
+	// Prefer, when set, is asked at every step which of the parked calls (one representative per group of
+	// indistinguishable calls, in canonical order) to release; a negative answer leaves the choice to the tape.
+	Prefer func(parked []*Call) int
+
 	mu      sync.Mutex
 	hold    func(*Call) bool // calls it accepts are frozen when they arrive (see Hold)
 	held    []*Call
@@ -528,8 +532,23 @@ func (w *World) Run() *Violation {
 			}
 			w.debugParked = strings.Join(ks, " ")
 		}
+		var reps []*Call
+		if w.Prefer != nil {
+			for _, st := range starts {
+				reps = append(reps, w.parked[st])
+			}
+		}
 		w.mu.Unlock()
-		gi := w.S.Choose(np)
+		gi := -1
+		if w.Prefer != nil {
+			// a scenario that enumerates orders itself (instead of sampling them from the tape) names the call to release
+			if gi = w.Prefer(reps); gi >= np {
+				gi = -1
+			}
+		}
+		if gi < 0 {
+			gi = w.S.Choose(np)
+		}
 		w.mu.Lock()
 		lo := starts[gi]
 		hi := len(w.parked)
